@@ -26,7 +26,9 @@ func (w *World) opTable() []opFn {
 		{"create-app", 3, func() bool { return len(w.apps) < 4 }, w.opCreateApp},
 		{"reconcile", 14, func() bool { return w.reconcilable() != nil }, w.opReconcile},
 		{"schedule", 30, func() bool { return len(w.schedulable()) > 0 }, w.opSchedule},
-		{"kubelet-run", 8, func() bool { return len(w.podsWhere(func(p *PodInfo) bool { return p.Node != "" && p.Phase == "Pending" })) > 0 }, w.opKubeletRun},
+		{"kubelet-run", 8, func() bool {
+			return len(w.podsWhere(func(p *PodInfo) bool { return p.Node != "" && p.Phase == "Pending" })) > 0
+		}, w.opKubeletRun},
 		{"delete-pod", 6, func() bool { return len(w.pods) > 0 }, w.opDeletePod},
 		{"scale", 3, func() bool { return len(w.liveApps()) > 0 }, w.opScale},
 		{"delete-app", 1, func() bool { return len(w.liveApps()) > 0 }, w.opDeleteApp},
@@ -294,7 +296,9 @@ func (w *World) createPod(a *App, name string) {
 // ---- kube-scheduler ------------------------------------------------------------------------------------
 
 func (w *World) schedulable() []*PodInfo {
-	return w.podsWhere(func(p *PodInfo) bool { return p.Node == "" && p.live() && w.schedBusy[p.UID] == nil && !w.unsched[p.UID] })
+	return w.podsWhere(func(p *PodInfo) bool {
+		return p.Node == "" && p.live() && w.schedBusy[p.UID] == nil && !w.unsched[p.UID]
+	})
 }
 
 func (w *World) nodesJSON() []byte {
